@@ -93,6 +93,23 @@ Theorem erase_recreate_in_one_cycle_nets : forall e m v items k c,
 Proof. exact DeltaFacts.erase_recreate_delta_empty. Qed.
 Print Assumptions erase_recreate_in_one_cycle_nets.
 
+(* RECOVER: the seed as of any time T - the fold of the recorded deltas up to T, each applied at
+   its own evaluation time (recorded_seed_resolver) - is the state the recorded time-series had
+   at T: the value after its last tick at or before T, nothing if there is none.  (A corollary of
+   [apply_capture]; it is what makes "start later from the recording" sound.) *)
+Theorem recover_state : forall sh h T, wf_shape sh -> chain sh (fresh sh) 0 h ->
+  commit sh (recover sh (srec_hist sh h []) T) = commit sh (last_state_from h T (fresh sh)).
+Proof. exact DeltaFacts.recover_state_gen. Qed.
+Print Assumptions recover_state.
+
+(* Continuation: a second recording run that finds the first run's recording in the shared
+   GlobalState appends to it; the recording is the concatenation of both runs' ticks. *)
+Theorem continued_recording : forall sh h1 h2 len2, wf_shape sh ->
+  chain sh (fresh sh) 0 h1 -> chain sh (fresh sh) len2 h2 ->
+  srec_hist sh h2 (srec_hist sh h1 []) = entries_of sh h1 ++ entries_of sh h2.
+Proof. exact DeltaFacts.continued_recording_gen. Qed.
+Print Assumptions continued_recording.
+
 (* For sets the hypothesis [tick] is not an assumption on the history at all: EVERY non-empty
    sequence of add / remove / touch / clear calls on a good state is a [tick] — or it is exactly
    an empty tick on an already valid set (finding B below), which leaves the set as it was. *)
